@@ -454,6 +454,20 @@ def targeted_group_take_family():
     return out
 
 
+def targeted_takes_family():
+    """consecutive takes (merged into one LIMIT/OFFSET when they share a SELECT), with and without a row-preserving transform between"""
+    out = []
+    for s_ in ("sort_asc", "sort_desc2"):
+        for tk1 in ("take_open", "take_range", "take_n", "take_2"):
+            for mid in (None, "derive_add", "select_2", "filter_gt"):
+                for tk2 in ("take_n", "take_range", "take_open"):
+                    seq = (s_, tk1) + ((mid,) if mid else ()) + (tk2,)
+                    pipe = build("sel", seq)
+                    if pipe is not None:
+                        out.append(("sel:" + ">".join(seq), Prog(pipe)))
+    return out
+
+
 def family_c01(tier, seed):
     """quick: all pipelines of <=2 templates on both heads + a seed-rotated slice of length 3;
     thorough: all of length <=3 on the explicit-column head, <=2 on the wildcard head, plus a slice of length 4"""
@@ -470,7 +484,7 @@ def family_c01(tier, seed):
         rr.shuffle(l2)
         rr.shuffle(l3)
         l2, l3 = l2[:300], l3[:150]
-    out += l2 + l3 + targeted_let_family() + targeted_distinct_family() + targeted_group_take_family()
+    out += l2 + l3 + targeted_let_family() + targeted_distinct_family() + targeted_group_take_family() + targeted_takes_family()
     out += list(enumerate_family(1 if tier == "quick" else 2, heads=("lit",)))
     out += list(enumerate_family(1 if tier == "quick" else 2, heads=("alias", "alias_wild")))
     if tier == "quick":
